@@ -1710,6 +1710,7 @@ func main() {
 	tFam := time.Now()
 	lap := func(name string) {
 		rep.Extra["seconds_"+name] = time.Since(tFam).Seconds()
+		rep.Write(cfg) // partial report: what was found so far survives the driver's time limit
 		tFam = time.Now()
 	}
 	// 1. every n <= 12 with all 2^n subsets (monitors); a sample to Coq
